@@ -11,34 +11,44 @@ Model: `NtpVerif.Wire.parse` / `Packet.serialize` (`NtpPacket::{deserialize, ser
   reencodes             first sentence, first half — PROVED for every byte string: an accepted packet is
                         encoded without an I/O error and without a panic (this is what finding F-C24 broke).
   reencodes_no_keys     the same with the key-less context spelled out (no cipher, no oracle).
-  Full                  the complete statement (re-encoding exists, is accepted, and is a fixed point of
-                        decode∘encode).  NOT proved in Lean: `Stable` is checked by the differential stream
-                        `c24_roundtrip` (model = implementation byte for byte on b₁, q, b₂, q₂) and by the
-                        harness oracle on every accepted packet.
+  Stable / Full         the complete statement (re-encoding exists, is accepted, and is a fixed point of
+                        decode∘encode).  PROVED for every byte string: `stable`, `full` (and `stable_any_oracle`: the
+                        decryption oracle is irrelevant without keys).
   unfixed_encoder_panics  F-C24 on the model of the unfixed `ReferenceIdRequest::serialize`.
 
-  stable_v3             `Stable` PROVED for NTPv3: an accepted v3 packet (header + optional MAC) encodes to exactly the
+  stable_v3             `Stable` for NTPv3: an accepted v3 packet (header + optional MAC) encodes to exactly the
                         received bytes (`v3_reencodes_exactly`), so the round trip is the identity from the start.
   header_v34_reencode   header lemma (v3/v4): decoding 48 header bytes and encoding the result gives the bytes back.
+  header_v34_prefix     the v3/v4 header decoder reads the first 48 bytes only.
+  header_v5_wf / header_v5_roundtrip   NTPv5 header: what the decoder guarantees (`HeaderV5.WF`), and decode∘encode = id
+                        on such headers (the leap-indicator rewrite is idempotent: `unknown ↔ 3 ↔ unsynchronized`
+                        is resolved by the synchronized flag).
   mac_reencode          MAC lemma: a decoded MAC encodes to the bytes it was decoded from.
   field_framing_readback  per-field lemma, framing: what every field encoder writes (`type, length, body`) is read
                         back by `RawExtensionField::deserialize` as that type with the first `length-4` body bytes.
-  generic_field_roundtrip  per-field lemma for the six kinds encoded through `encode_framing`/`encode_padding`
-                        (unique identifier, cookie, placeholder, draft id, padding, unknown), with the v4 / v5 rules
-                        and any minimum size: encode → frame back → message = data ++ zero padding → encoding
-                        that message again (same position) yields the same bytes.
+  generic_field_roundtrip  per-field lemma for the six kinds encoded through `encode_framing`/`encode_padding`.
+  field_roundtrip       per-field lemma for EVERY kind a key-less decoder can produce (incl. the two v5 reference-id
+                        kinds, with the F-C24-fixed request encoder): encode → read back → decode → encode again
+                        gives the same bytes; under v5 rules the decoded field is the original one.
+  decoded_field_wf      parse-origin invariant of one field (`EF.FWF`): data fits the 16-bit length, is a multiple of
+                        4 under v4 framing, v5-only kinds occur under v5 only, an `unknown` type id is below 2^16, is
+                        not the NTS encrypted-field id and is not dispatched to another kind.
+  stream_of_encoded     SEQUENCE LEMMA: over `enc f₁ ++ … ++ enc fₙ ++ tail` the streamer yields exactly one item per
+                        field and stops at the tail (MAC bytes or nothing).
+  encoded_sequence      encoder side of the sequence lemma: the untrusted-field encoder writes such a sequence, and
+                        every non-empty suffix of it is longer than the MAC cut-off.
 
-Still missing for `Full` (v4 and v5 packets with extension fields), exactly:
-  (a) the sequence lemma `stream_of_encoded`: over `enc f₁ ++ … ++ enc fₙ ++ mac` the streamer yields one item per
-      field (by `field_framing_readback`) and stops at the MAC — needs the parse-origin invariant that without a MAC
-      the last field's wire length exceeds the 28-byte cut-off (otherwise `Full` is false: a 28-byte last field is
-      re-read as a MAC), v4 data lengths being multiples of 4, and unknown type ids avoiding the dispatched ids;
-  (b) the v5 header lemma (decode∘encode incl. idempotence of the leap rewrite) and the per-field lemmas of the two
-      v5 reference-id kinds.
+On the suspected counterexample ("a 28-byte last field is re-read as a MAC"): it does not exist.  The streamer's
+cut-off is `Mac::MAXIMUM_SIZE` = 24 bytes, the encoder pads the LAST v4 field to 28 bytes (RFC 7822 §7.5.1.4), and
+28 > 24, so the last field of a re-encoding is always read back as a field, with or without a MAC behind it; no
+invariant about the length of the last field is needed (`encoded_sequence` proves the suffix condition from the
+encoder's minimum sizes alone).  What normalisation does need is the per-field invariant `EF.FWF`, which every field
+of an accepted packet satisfies (`decoded_field_wf`).  Under v5 rules nothing follows the fields (cut-off 0), so an
+accepted v5 packet has no MAC and its re-encoding decodes to the very same packet.
 
 The model describes the tree with `fixes/C24-refid-request-encode.patch` applied.
 -/
-import NtpVerif.Proofs.WireRT5
+import NtpVerif.Proofs.WireRT10
 
 namespace NtpVerif.C24
 open NtpVerif.Wire
@@ -70,6 +80,28 @@ def Stable (b : Bytes) : Prop :=
 
 /-- the complete property -/
 def Full : Prop := ∀ b, Stable b
+
+/-- the round trip with any decryption oracle on either side (without keys the oracle is never consulted) -/
+theorem stable_any_oracle (dec dec' : Dec) (b : Bytes) (p : Packet) (c : Option Cookie)
+    (h : parse dec .noCipher b = .ok p c) :
+    ∃ b₁, p.serialize none none = .ok (b₁, none) ∧
+      ∃ q c', parse dec' .noCipher b₁ = .ok q c' ∧ q.serialize none none = .ok (b₁, none) := by
+  unfold parse at h
+  split at h
+  · rename_i p' c'' hp
+    cases h
+    obtain ⟨b₁, hs, q, c', hq, hqs⟩ := parseR_stable (dec' := dec') hp
+    exact ⟨b₁, hs, q, c', by unfold parse; rw [hq], hqs⟩
+  all_goals cases h
+
+/-- "after one normalising round the encoding is stable", for every input -/
+theorem stable (b : Bytes) : Stable b := by
+  intro p c hp
+  obtain ⟨b₁, hs, q, c', hq, hqs⟩ := stable_any_oracle noDec noDec b p c hp
+  exact ⟨b₁, none, hs, q, c', hq, hqs⟩
+
+/-- C24, the complete statement -/
+theorem full : Full := stable
 
 /-! #### NTPv3: the round trip is the identity -/
 
@@ -114,10 +146,72 @@ theorem generic_field_roundtrip (ty : Nat) (data rest : Bytes) (m : Nat) (ver : 
       encodeGeneric ty msg' m ver = .ok enc :=
   Wire.generic_field_roundtrip _ (by decide) ty data rest m ver hty hlen
 
+theorem header_v34_prefix (x y : Bytes) (hx : x.length = 48) :
+    HeaderV34.deserialize (x ++ y) = HeaderV34.deserialize x :=
+  headerV34_prefix x y hx
+
+theorem header_v5_wf (data : Bytes) (h : HeaderV5) (hs : Nat) (e : HeaderV5.deserialize data = .ok (h, hs)) :
+    hs = 48 ∧ h.WF :=
+  headerV5_wf e
+
+theorem header_v5_roundtrip (h : HeaderV5) (hw : h.WF) :
+    ∃ hb, h.serialize = .ok hb ∧ hb.length = 48 ∧ (∃ b0 t, hb = b0 :: t ∧ b0.toNat / 8 % 8 = 5) ∧
+      ∀ rest, HeaderV5.deserialize (hb ++ rest) = .ok (h, 48) :=
+  headerV5_roundtrip hw
+
+theorem decoded_field_wf (ty : Nat) (msg : Bytes) (ver : Ver) (f : EF) (h : decode ty msg ver = .ok f)
+    (hty : ty < 65536) (hne : ty ≠ tyEncrypted) (hl : msg.length ≤ 65531) (h4 : ver = .v4 → msg.length % 4 = 0) :
+    f.FWF ver :=
+  decode_fwf h hty hne ⟨hl, h4⟩
+
+theorem field_roundtrip (ver : Ver) (m : Nat) (f : EF) (hf : f.FWF ver) (hm4 : ver = .v4 → m % 4 = 0) (hm : m ≤ 28)
+    (hm5 : ver = .v5 → m ≤ 4) :
+    ∃ fr : Frame, f.serialize m ver = .ok fr.e ∧
+      (∀ rest, rawDeserialize (fr.e ++ rest) Gen.EF_V4_UNENCRYPTED_MINIMUM_SIZE ver = .ok (fr.ty, fr.msg)) ∧
+      fr.ty ≠ tyEncrypted ∧ decode fr.ty fr.msg ver = .ok fr.f ∧ fr.f.serialize m ver = .ok fr.e ∧
+      (ver = .v5 → fr.f = f) := by
+  obtain ⟨fr, h1, h2, h3, _, h5⟩ := field_rt ver m f hf hm4 hm hm5
+  exact ⟨fr, h1, h2.1, h2.2.2.2.1, h2.2.2.2.2, h3, h5⟩
+
+theorem stream_of_encoded (ver : Ver) (cutoff : Nat) (tail : Bytes) (ht : tail.length ≤ cutoff) (frs : List Frame)
+    (hok : ∀ fr ∈ frs, fr.OK ver) (hbig : SufBig cutoff tail frs) (fuel off : Nat) (hf : frs.length < fuel) :
+    streamAux ver cutoff Gen.EF_V4_UNENCRYPTED_MINIMUM_SIZE fuel (flat frs ++ tail) off = itemsOf off frs :=
+  stream_of_frames ver cutoff tail ht frs hok hbig fuel off hf
+
+theorem encoded_sequence (ver : Ver) (tail : Bytes) (fs : List EF) (h : ∀ f ∈ fs, f.FWF ver) :
+    ∃ frs : List Frame, frs.length = fs.length ∧ serializeUntrusted ver fs = .ok (flat frs) ∧
+      serializeUntrusted ver (frs.map (·.f)) = .ok (flat frs) ∧ (∀ fr ∈ frs, fr.OK ver) ∧
+      SufBig (macCutoff ver) tail frs ∧ (ver = .v5 → frs.map (·.f) = fs) :=
+  seq_frames ver tail fs h
+
 /-- non-vacuity: a v3 packet with a 20-byte MAC is accepted, and it is a v3 packet -/
 example : (match parse noDec .noCipher ((0x1b :: List.replicate 47 0) ++ List.replicate 20 7) with
     | .ok p _ => (match p.header with | .v3 _ => p.mac.isSome | _ => false) | _ => false) = true := by
   decide +kernel
+
+/-- a v4 packet with a short field (8 bytes), a 32-byte field and no MAC -/
+def v4witness : Bytes :=
+  (0x23 :: List.replicate 47 0) ++ [0x01, 0x04, 0x00, 0x08, 9, 9, 9, 9] ++
+    ([0x02, 0x04, 0x00, 0x20] ++ List.replicate 28 8)
+
+/-- non-vacuity of the general case: the v4 witness is accepted with two fields, the first round normalises (the
+    short field is padded to 16 bytes, so `b₁ ≠ b`), and `b₁` is a fixed point -/
+example : (match parse noDec .noCipher v4witness with
+    | .ok p _ =>
+      p.ef.untrusted.length == 2 &&
+      (match p.serialize none none with
+       | .ok (b₁, _) =>
+         b₁ != v4witness &&
+         (match parse noDec .noCipher b₁ with
+          | .ok q _ => (match q.serialize none none with | .ok (b₂, _) => b₂ == b₁ | _ => false)
+          | _ => false)
+       | _ => false)
+    | _ => false) = true := by decide +kernel
+
+/-- the cut-off corner: a 28-byte last field without a MAC is read back as a field (28 > 24), not as a MAC -/
+example : (match parse noDec .noCipher ((0x23 :: List.replicate 47 0) ++ ([0x01, 0x04, 0x00, 0x1c] ++ List.replicate 24 5)) with
+    | .ok p _ => p.mac.isNone && p.ef.untrusted.length == 1
+    | _ => false) = true := by decide +kernel
 
 /-! #### F-C24 -/
 
@@ -175,3 +269,13 @@ end NtpVerif.C24
 #print axioms NtpVerif.C24.mac_reencode
 #print axioms NtpVerif.C24.field_framing_readback
 #print axioms NtpVerif.C24.generic_field_roundtrip
+#print axioms NtpVerif.C24.stable_any_oracle
+#print axioms NtpVerif.C24.stable
+#print axioms NtpVerif.C24.full
+#print axioms NtpVerif.C24.header_v34_prefix
+#print axioms NtpVerif.C24.header_v5_wf
+#print axioms NtpVerif.C24.header_v5_roundtrip
+#print axioms NtpVerif.C24.decoded_field_wf
+#print axioms NtpVerif.C24.field_roundtrip
+#print axioms NtpVerif.C24.stream_of_encoded
+#print axioms NtpVerif.C24.encoded_sequence
